@@ -73,9 +73,16 @@ impl Params {
         let mem = mem / 1024;
         let mem = u32::try_from(mem).map_err(|_| PasetoError::InvalidKey)?;
 
+        // argon2 multiplies the lane count by 8 before comparing it with anything:
+        // a count read from an untrusted blob must be in range before it gets there
+        let para = self.para.get();
+        if para > argon2::Params::MAX_P_COST {
+            return Err(PasetoError::InvalidKey);
+        }
+
         let params = argon2::ParamsBuilder::new()
             .m_cost(mem)
-            .p_cost(self.para.get())
+            .p_cost(para)
             .t_cost(self.time.get())
             .build()
             .map_err(|_| PasetoError::InvalidKey)?;
